@@ -1252,8 +1252,8 @@ class Proxy(types.ModuleType):
 
     def zeros(self, shape, dtype=float, **kw):
         a = np.zeros(shape, dtype=dtype, **kw)
-        if not active() or a.dtype.kind not in 'biuf':
-            return a
+        if not active() or a.dtype.kind not in 'biuf' or (a.dtype.kind in 'iu' and a.dtype.itemsize == 1):
+            return a            # (raw byte buffers stay real: they are re-viewed with structured dtypes)
         r = self._const(a)
         if r.size == 0:
             r._empty_kind = _dtype_kind(dtype)
